@@ -185,7 +185,8 @@ def trimWs (l : List Nat) : List Nat :=
 /-- the footer arm of `parse` -/
 def parseFooter (footer : List Nat) (version : Version) : P (Option Rule) :=
   if !validUtf8 footer then .err
-  else if !(footer.head? == some 10 && footer.getLast? == some 10) then .err
+  -- repair of finding F36: a footer is NL, TZ string, NL — two bytes at least
+  else if decide (footer.length < 2) || !(footer.head? == some 10 && footer.getLast? == some 10) then .err
   else
     let tz_string := trimWs footer
     if tz_string.head? == some 58 || tz_string.contains 0 then .err
@@ -269,7 +270,9 @@ def parseBlocks (bytes : List Nat) : P (State × Option (List Nat)) :=
   State.new bytes true >>= fun (state1, c1) =>
   match state1.header.version with
   | .V1 => if c1.isEmpty then .ok (state1, none) else .err
-  | _ => State.new c1 false >>= fun (state2, c2) => .ok (state2, some c2)
+  | _ => State.new c1 false >>= fun (state2, c2) =>
+    -- repair of finding F35: the second header must repeat the first header's version
+    if state2.header.version ≠ state1.header.version then .err else .ok (state2, some c2)
 
 /-- the `extra_rule` match of `parse`: only v2+ files have a footer -/
 def parseFooterOpt (footer : Option (List Nat)) (version : Version) : P (Option Rule) :=
